@@ -124,8 +124,17 @@ func UnpackSome(data []byte, outputs ...interface{}) (uint, error) {
 	return n, nil
 }
 
+// bufferLen exists because UnpackString shadows the len builtin with a parameter.
+func bufferLen(buffer []byte) int {
+	return len(buffer)
+}
+
 // UnpackString unpacks a string
 func UnpackString(buffer []byte, len uint, output *string) (uint, error) {
+	if uint(bufferLen(buffer)) < len {
+		return 0, io.ErrUnexpectedEOF
+	}
+
 	buffer = buffer[:len]
 	buffer = bytes.TrimRight(buffer, string(byte(0x0)))
 	buffer, err := stringDecoder.Bytes(buffer)
